@@ -39,11 +39,13 @@ Err(c) == [AnsBase EXCEPT !.ok = FALSE, !.err = c]
 
 Ans(fs, q) ==
   LET p == q.p IN
-  CASE q.kind = "exists" -> [AnsBase EXCEPT !.b = Has(fs, p)]
+  \* (a "pin" node - a dangling symbolic link - is invisible to every query; it only keeps its directory from
+  \* being empty)
+  CASE q.kind = "exists" -> [AnsBase EXCEPT !.b = IsFile(fs, p) \/ IsDir(fs, p)]
     [] q.kind = "is_file" -> [AnsBase EXCEPT !.b = IsFile(fs, p)]
     [] q.kind = "is_dir" -> [AnsBase EXCEPT !.b = IsDir(fs, p)]
     [] q.kind = "list_dir" ->
-         IF IsDir(fs, p) THEN [AnsBase EXCEPT !.names = ChildNames(fs, p)]
+         IF IsDir(fs, p) THEN [AnsBase EXCEPT !.names = SubDirNames(fs, p) \cup SubFileNames(fs, p)]
          ELSE IF IsFile(fs, p) THEN Err("NotADirectoryError") ELSE Err("FileNotFoundError")
     [] q.kind = "walk" ->
          IF IsDir(fs, p)
